@@ -5,6 +5,7 @@ import (
 	"strings"
 	"time"
 
+	sasl "github.com/emersion/go-sasl"
 	"github.com/fluffle/goirc/client"
 
 	"verif/harness/drv"
@@ -303,6 +304,7 @@ func c08Wire(c *Ctx) {
 	c.RunCases(cases)
 	c08Reconnect(c)
 	c08BeforeConnect(c)
+	c08MidNegotiation(c)
 }
 
 // c08Reconnect: a line of caller text is cut short by the end of the connection (the peer stops reading in the middle of it
@@ -398,6 +400,61 @@ func c08BeforeConnect(c *Ctx) {
 		}
 		if bad != "" {
 			c.SpecFail("spec", desc, "", bad, map[string]interface{}{"op": "before-first-connect", "wire_hex": drv.H(raw)})
+		}
+	}
+}
+
+// c08MidNegotiation: "each line begins with the verb of the method that was called" whatever state the connection is in.
+// The state here: SASL configured, the server has acknowledged sasl, the client has sent AUTHENTICATE PLAIN and waits for
+// the server's "+". Command methods called now write their own line and nothing else.
+func c08MidNegotiation(c *Ctx) {
+	for k := 0; k < c.Pick(2, 5); k++ {
+		sess, err := newSession(func(cfg *client.Config) {
+			cfg.EnableCapabilityNegotiation = true
+			cfg.Sasl = sasl.NewPlainClient("", "user", "pw")
+		}, nil)
+		if err != nil {
+			c.Res.Inconclusive++
+			continue
+		}
+		sess.srv.SendLine(":irc.test CAP * LS :sasl")
+		sess.srv.SendLine(":irc.test CAP * ACK :sasl")
+		sess.srv.WaitLine(0, func(l string) bool { return strings.HasPrefix(l, "AUTHENTICATE ") }, 3*time.Second)
+		sess.sync(5 * time.Second)
+		type call struct {
+			desc string
+			do   func()
+			want string
+		}
+		calls := []call{
+			{`Cap("END")`, func() { sess.conn.Cap("END") }, "CAP END"},
+			{`Cap("LS")`, func() { sess.conn.Cap("LS") }, "CAP LS"},
+			{`Nick("other")`, func() { sess.conn.Nick("other") }, "NICK other"},
+			{`Authenticate("+")`, func() { sess.conn.Authenticate("+") }, "AUTHENTICATE +"},
+			{`Quit()`, func() { sess.conn.Quit() }, "QUIT :GoBye!"},
+		}
+		cl := calls[0]
+		if k > 0 {
+			cl = calls[1+(k+int(c.Seed))%(len(calls)-1)]
+		}
+		desc := "SASL exchange pending (sasl acknowledged, AUTHENTICATE PLAIN sent, no reply yet), then " + cl.desc
+		c.Journal("C08 " + desc)
+		before := len(sess.srv.Raw())
+		cl.do()
+		sess.sync(5 * time.Second)
+		raw := sess.srv.Raw()[before:]
+		sess.close()
+		c.Res.Traces++
+		c.Res.Evaluations++
+		c.Dist("mid-negotiation")
+		if i := strings.LastIndex(raw[:max(0, len(raw)-2)], "\r\n"); i >= 0 { // drop the PONG of the sync marker
+			raw = raw[:i+2]
+		} else {
+			raw = ""
+		}
+		if raw != cl.want+"\r\n" {
+			c.SpecFail("spec", desc, "", fmt.Sprintf("the call put %q on the wire ; one line, beginning with the verb of the method: %q", raw, cl.want+"\r\n"),
+				map[string]interface{}{"op": "mid-negotiation", "call": cl.desc, "wire_hex": drv.H(raw)})
 		}
 	}
 }
